@@ -47,7 +47,12 @@ func TestRaceC13(t *testing.T) {
 		c := p.Gen((seed<<20)+i, "race")
 		for rep := 0; rep < 4; rep++ {
 			if msg := c13.RunReal(c); msg != "" {
-				t.Fatalf("operation panicked on real goroutines: %s", msg)
+				if out := os.Getenv("VERIF_RACE_OUT"); out != "" {
+					b, _ := json.Marshal(map[string]any{"case": c, "class": "op-panic"})
+					os.WriteFile(out+".case", b, 0o644)
+				}
+				fmt.Printf("REAL-LEG VIOLATION class=op-panic\nan environment operation panicked on real goroutines: %s\n", msg)
+				t.FailNow()
 			}
 		}
 		n++
@@ -64,16 +69,19 @@ func TestRaceC14(t *testing.T) {
 		c := p.Gen((seed<<20)+i, "race")
 		for rep := 0; rep < 2; rep++ {
 			if msg := c14.RunReal(c); msg != "" {
-				t.Fatalf("execution panicked on real goroutines: %s", msg)
+				if out := os.Getenv("VERIF_RACE_OUT"); out != "" {
+					b, _ := json.Marshal(map[string]any{"case": c, "class": "panic"})
+					os.WriteFile(out+".case", b, 0o644)
+				}
+				fmt.Printf("REAL-LEG VIOLATION class=panic\nan execution panicked on real goroutines: %s\n", msg)
+				t.FailNow()
 			}
 		}
 		n++
 	}
-	if g := c14.ProcessGlobals(); g != "" {
-		t.Fatalf("process-wide values modified: %s", g)
-	}
-	if g := c14.ScanSmallInts(); g != "" {
-		t.Fatalf("process-wide values modified: %s", g)
+	if g := c14.ProcessGlobals() + c14.ScanSmallInts(); g != "" {
+		fmt.Printf("REAL-LEG VIOLATION class=process-globals\nprocess-wide values modified: %s\n", g)
+		t.FailNow()
 	}
 	report(map[string]any{"workloads": n, "repeats_each": 2, "seconds": d.Seconds()})
 }
